@@ -91,6 +91,7 @@ func ownMethod(t types.Type, name string) *types.Func {
 
 type jsonShape struct {
 	keys   map[string]bool
+	ktypes map[string][]types.Type // field types seen for a key in the twin structs looked at
 	scalar bool     // marshals to / decodes from something that is not a keyed object we can see
 	via    []string // what was looked at
 }
@@ -115,7 +116,7 @@ func derefNamed(t types.Type) types.Type {
 
 // marshalShape: the keys MarshalJSON of t writes.
 func (c *Ctx) marshalShape(t types.Type, depth int) jsonShape {
-	sh := jsonShape{keys: map[string]bool{}}
+	sh := jsonShape{keys: map[string]bool{}, ktypes: map[string][]types.Type{}}
 	fn := c.ssaOf(ownMethod(t, "MarshalJSON"))
 	if fn == nil || depth > 4 {
 		sh.scalar = true
@@ -141,6 +142,9 @@ func (c *Ctx) marshalShape(t types.Type, depth int) jsonShape {
 				for k := range sub.keys {
 					sh.keys[k] = true
 				}
+				for k, ts := range sub.ktypes {
+					sh.ktypes[k] = append(sh.ktypes[k], ts...)
+				}
 				sh.scalar = sh.scalar || sub.scalar
 				sh.via = append(sh.via, "delegates:"+name)
 				found = true
@@ -160,9 +164,13 @@ func (c *Ctx) marshalShape(t types.Type, depth int) jsonShape {
 					for k := range sub.keys {
 						sh.keys[k] = true
 					}
+					for k, ts := range sub.ktypes {
+						sh.ktypes[k] = append(sh.ktypes[k], ts...)
+					}
 					sh.scalar = sh.scalar || sub.scalar
 				} else {
 					jsonKeys(derefNamed(at), sh.keys, map[types.Type]bool{})
+					jsonKeyTypes(derefNamed(at), sh.ktypes, map[types.Type]bool{})
 				}
 				sh.via = append(sh.via, types.TypeString(at, nil))
 			case *types.Map:
@@ -194,7 +202,7 @@ func (c *Ctx) marshalShape(t types.Type, depth int) jsonShape {
 
 // decodeShape: the keys the decoder of t reads from the bytes it is given.
 func (c *Ctx) decodeShape(t types.Type, depth int, seen map[string]bool) jsonShape {
-	sh := jsonShape{keys: map[string]bool{}}
+	sh := jsonShape{keys: map[string]bool{}, ktypes: map[string][]types.Type{}}
 	var fns []*ssa.Function
 	for _, n := range []string{"DecodeJSON", "UnmarshalJSON"} {
 		if f := c.ssaOf(ownMethod(t, n)); f != nil {
@@ -237,6 +245,9 @@ func (c *Ctx) decodeShape(t types.Type, depth int, seen map[string]bool) jsonSha
 					for k := range sub.keys {
 						sh.keys[k] = true
 					}
+					for k, ts := range sub.ktypes {
+						sh.ktypes[k] = append(sh.ktypes[k], ts...)
+					}
 					sh.scalar = sh.scalar || sub.scalar
 					sh.via = append(sh.via, "with:"+name)
 					found = true
@@ -272,10 +283,14 @@ func (c *Ctx) decodeShape(t types.Type, depth int, seen map[string]bool) jsonSha
 					for k := range sub.keys {
 						sh.keys[k] = true
 					}
+					for k, ts := range sub.ktypes {
+						sh.ktypes[k] = append(sh.ktypes[k], ts...)
+					}
 					sh.scalar = sh.scalar || sub.scalar
 					sh.via = append(sh.via, "into:"+types.TypeString(tt, nil))
 					continue
 				}
+				jsonKeyTypes(tt, sh.ktypes, map[types.Type]bool{})
 				if !jsonKeys(tt, sh.keys, map[types.Type]bool{}) {
 					sh.scalar = true
 					sh.via = append(sh.via, "scalar:"+types.TypeString(tt, nil))
@@ -379,6 +394,28 @@ func runC27(c *Ctx) {
 			}
 		}
 		c.Report(fn, tn+": marshaler and decoder agree on the key set", fn.Pos(), true, strings.Join(sortedKeys(ms.keys), ","))
+		// a scalar written under a key is read back into the same basic type (no narrowing twin)
+		for _, k := range sortedKeys(ms.keys) {
+			var bad []string
+			for _, mt := range ms.ktypes[k] {
+				mb, ok := mt.Underlying().(*types.Basic)
+				if !ok {
+					continue
+				}
+				for _, dt := range ds.ktypes[k] {
+					db, ok := dt.Underlying().(*types.Basic)
+					if !ok {
+						continue
+					}
+					if mb.Kind() != db.Kind() {
+						bad = append(bad, mb.Name()+" written, "+db.Name()+" read")
+					}
+				}
+			}
+			if len(bad) > 0 {
+				c.Report(fn, tn+": key \""+k+"\" is read back into the basic type it was written from", fn.Pos(), false, strings.Join(bad, "; "))
+			}
+		}
 	}
 	c.Floor(nil, "object-shaped types compared", nObj, 40)
 	c.fieldFlowRules(jt, debug)
@@ -1194,13 +1231,22 @@ func (c *Ctx) typeUsesGlobal(t *types.Named, obj types.Object) bool {
 			}
 		}
 		if !rel && root.Pkg != nil && root.Pkg.Pkg == t.Obj().Pkg() {
-			// a function of the package that builds a t
+			// a function of the package that fills a field of a t with a value made from the hint
+			// (a literal `T{BaseHinter: hint.NewBaseHinter(H), ...}` outside T's own constructors)
 			for _, in := range allInstrs(fn) {
-				switch x := in.(type) {
-				case *ssa.Alloc:
-					rel = rel || isT(x.Type().Underlying().(*types.Pointer).Elem())
-				case *ssa.FieldAddr:
-					rel = rel || isT(x.X.Type())
+				st, ok := in.(*ssa.Store)
+				if !ok {
+					continue
+				}
+				fa, ok := st.Addr.(*ssa.FieldAddr)
+				if !ok || !isT(fa.X.Type()) {
+					continue
+				}
+				if c.DependsOn(st.Val, func(v ssa.Value) bool {
+					g, ok := v.(*ssa.Global)
+					return ok && g.Object() == obj
+				}) {
+					return true
 				}
 			}
 		}
@@ -1217,4 +1263,41 @@ func (c *Ctx) typeUsesGlobal(t *types.Named, obj types.Object) bool {
 		}
 	}
 	return false
+}
+
+// jsonKeyTypes: like jsonKeys, but records the field type under every key.
+func jsonKeyTypes(t types.Type, out map[string][]types.Type, seen map[types.Type]bool) {
+	if p, ok := t.Underlying().(*types.Pointer); ok {
+		t = p.Elem()
+	}
+	st, ok := t.Underlying().(*types.Struct)
+	if !ok || seen[t] {
+		return
+	}
+	seen[t] = true
+	for i := 0; i < st.NumFields(); i++ {
+		f := st.Field(i)
+		tag := reflect.StructTag(st.Tag(i)).Get("json")
+		name, _, _ := strings.Cut(tag, ",")
+		if name == "-" {
+			continue
+		}
+		if f.Embedded() && name == "" {
+			ft := f.Type()
+			if p, ok := ft.Underlying().(*types.Pointer); ok {
+				ft = p.Elem()
+			}
+			if _, isStruct := ft.Underlying().(*types.Struct); isStruct {
+				jsonKeyTypes(ft, out, seen)
+				continue
+			}
+		}
+		if !f.Exported() {
+			continue
+		}
+		if name == "" {
+			name = f.Name()
+		}
+		out[name] = append(out[name], f.Type())
+	}
 }
